@@ -71,7 +71,10 @@ impl DeferredRead {
                         self.vec.capacity(),
                         h.variation,
                         h.details.qualifier()
-                    )
+                    );
+                    // the header is not going to be answered: say so, as a READ
+                    // handled from idle does when it has too many headers
+                    iin2 = Iin2::PARAMETER_ERROR;
                 }
             } else {
                 iin2 = Iin2::PARAMETER_ERROR;
